@@ -10,8 +10,8 @@ import os
 from symx.harness import Harness
 from symx import core
 from symx.core import sym_and, sym_or, sym_not, implies
-from ref import rv32
-from props import _rv
+from ref import rv32, arm32
+from props import _rv, _arm
 
 PROPERTY = "C08"
 LEVEL = "model_checking"
@@ -178,6 +178,109 @@ class PseudoEffectHarness(_rv.PseudoHarness):
                 "render leaves the printed operands unchanged": core.sym_eq(list(after), list(printed))}
 
 
+class ArmEncodingHarness(_arm.EncodeHarness):
+    """ARM A32: real encode() (+ real relocation) on symbolic operands, bytes decoded by ref/arm32.py"""
+    PREFIX = "arm.encode"
+
+    def inputs(self, mk):
+        return self.operand_inputs(mk)
+
+    def run(self, i):
+        return self.encode(i)
+
+    def post(self, i, out):
+        if not out.ok:
+            return {"harness-ran": False}
+        r = out.value
+        if r[0] == "rejected":
+            return {"rejected": True}
+        _, data, printed, used, defined = r
+        prem = self.imm_premise(i, printed)
+        m, ops = self.decode_matches(data, printed)
+        return {"decodes-to-printed-mnemonic": implies(prem, m),
+                "decodes-to-printed-operands": implies(prem, sym_and(m, ops))}
+
+
+class ArmSlicingHarness(Harness):
+    """validates the oracle: the integer (shift/mask; what a concrete replay runs) and the z3 (extract) variants
+    of arm32.decode agree on every word, for every table entry: match condition and every extracted field"""
+    W = 48
+
+    def __init__(self, part, parts):
+        self.part, self.parts = part, parts
+        self.name = f"arm32.decode-slicing[{part}/{parts}]"
+        self.params = dict(part=part, parts=parts)
+
+    def inputs(self, mk):
+        return dict(w=mk.int("w", 0, M32))
+
+    def run(self, i):
+        return 0
+
+    def post(self, i, out):
+        import z3
+        w = i["w"]
+        a = arm32.decode(w)
+        if not isinstance(w, core.SymInt):
+            return {"function": len([1 for (c, n, f) in a.entries if c]) <= 1}
+        b = arm32.decode(core.to_bv(w, 32))
+        res = {}
+        for n in arm32.NAMES[self.part::self.parts]:
+            conj = [core.tobool(a.is_(n)) == arm32._zb(b.is_(n))]
+            fa, fb = a.fields(n), b.fields(n)
+            assert set(fa) == set(fb)
+            for k in fa:
+                p, q = fa[k], fb[k]
+                if type(q) is bool or z3.is_bool(q) or type(p) is bool or type(p) is core.SymBool:
+                    conj.append(core.tobool(p) == arm32._zb(q))
+                else:
+                    conj.append(core.to_bv(p, 32) == arm32._zv(q))
+            res[n] = core.SymBool(z3.And(*conj))
+        return res
+
+
+def mk_arm_enc(**kw):
+    return ArmEncodingHarness(**kw)
+
+
+def mk_arm_slicing(part, parts):
+    return ArmSlicingHarness(part, parts)
+
+
+def mk_arm_selftest():
+    """concrete validation of the ARM reference model + the list of unclaimed classes (evidence)"""
+    import time
+    t0 = time.time()
+    res = dict(harness="arm32.selftest", violations=[], known_hits=[], inconclusive=[], errors=[], funcs=[],
+               samples=[], stats=dict(paths=1, decisions=0, feas_queries=0, cut_paths=0, solver_s=0.0),
+               obligations=1, discharged=0, validated=0, reached=1, twin_violated=1, exhaustive=True, nontrivial=1)
+    try:
+        st = arm32.selftest()
+        st["llvm_mc_words_compared"], bad = _arm_llvm_crosscheck()
+        assert not bad, f"{bad} disagreements between ref/arm32.decode and llvm-mc (tools/arm32_llvm_crosscheck.py)"
+        claimed, unclaimed = _arm.discover()
+        res["discharged"] = 1
+        res["samples"] = [dict(harness="arm32.selftest", selftest=st, claimed_classes=len(claimed),
+                               unclaimed_classes=[list(u) for u in unclaimed])]
+    except AssertionError as e:
+        res["errors"].append(dict(kind="reference-selftest-failed", harness="arm32.selftest", error=repr(e)[:500]))
+    res["wall_s"] = time.time() - t0
+    return res
+
+
+def _arm_llvm_crosscheck(n=40):
+    """optional: ref/arm32.decode against LLVM's disassembler, if llvm-mc is installed (0 words otherwise)"""
+    import importlib.util
+    import io
+    import contextlib
+    path = os.path.join(os.path.dirname(os.path.abspath(__file__)), "..", "tools", "arm32_llvm_crosscheck.py")
+    spec = importlib.util.spec_from_file_location("arm32_llvm_crosscheck", path)
+    mod = importlib.util.module_from_spec(spec)
+    spec.loader.exec_module(mod)
+    with contextlib.redirect_stdout(io.StringIO()):
+        return mod.main(n, 1, quiet=True)
+
+
 def mk_pseudo(**kw):
     return PseudoEffectHarness(**kw)
 
@@ -209,6 +312,49 @@ def mk_selftest():
     return res
 
 
+def arm_jobs(tier):
+    js = [("mk_arm_selftest", {})] + [("mk_arm_slicing", dict(part=p, parts=4)) for p in range(4)]
+    claimed, unclaimed = _arm.discover()
+    for (idx, cls, mn, base, cond, ks) in claimed:
+        for nl in (ARM_NLIST[tier] if "L" in ks else (0,)):
+            js.append(("mk_arm_enc", dict(idx=idx, cls=cls, mn=mn, base=base, cond=cond, ks=ks,
+                                          wide=int(tier == "thorough"), nlist=nl)))
+    return js
+
+
+ARM_NLIST = {"quick": (3,), "thorough": (1, 16)}
+
+
+# ===== x86_64 integer operand-encoding layer (props/_x86.py, ref/x86dec.py) ================== begin x86 block
+def mk_x86_enc(**kw):
+    from props import _x86
+    return _x86.X86EncodingHarness(**kw)
+
+
+def mk_x86_selftest(seed=0, n=600):
+    """concrete validation of ref/x86dec.py (incl. GNU objdump cross-check when installed) + evidence lists"""
+    from props import _x86
+    return _x86.selftest_result(seed=seed, n_random=n)
+
+
+def x86_jobs(tier, seed):
+    from props import _x86
+    js = [("mk_x86_selftest", dict(seed=int(seed), n=600 if tier == "quick" else 5000))]
+    claimed, unclaimed = _x86.discover()
+    for (idx, cls, mn, mode) in claimed:
+        js.append(("mk_x86_enc", dict(idx=idx, cls=cls, mn=mn, mode=mode, wide=int(tier == "thorough"))))
+    return js
+
+
+BOUNDS["quick"]["x86_64"] = ("every instruction class of ppci.arch.x86_64.instructions with a syntax (except the `rep` prefix "
+                             "pseudo-instruction) x every operand constructor its r/m operand accepts (RmMem, RmMemDisp, RmMemDisp2, "
+                             "RmRip, RmAbs, RmAbsLabel, RmReg8/16/32/64); every register of the operand's register class "
+                             "(symbolic number), displacement / absolute address -2**31-2 .. 2**31+2, immediates 4 x the documented "
+                             "range, branch distance 2 x the rel8/rel32 reach at every address below 2**47")
+BOUNDS["thorough"]["x86_64"] = BOUNDS["quick"]["x86_64"].replace("4 x", "16 x").replace("2 x", "16 x")
+# ===== end x86 block
+
+
 def jobs(tier, seed):
     js = [("mk_selftest", {}), ("mk_slicing", dict(ilen=4)), ("mk_slicing", dict(ilen=2))]
     claimed, unclaimed = _rv.discover()
@@ -216,6 +362,8 @@ def jobs(tier, seed):
         js.append(("mk_enc", dict(arch=arch, idx=idx, cls=cls, mn=mn, ks=ks, wide=int(tier == "thorough"))))
     for (arch, idx, cls, mn, ks) in _rv.discover(True):
         js.append(("mk_pseudo", dict(arch=arch, idx=idx, cls=cls, mn=mn, ks=ks, wide=int(tier == "thorough"))))
+    js += arm_jobs(tier)
+    js += x86_jobs(tier, seed)
     only = os.environ.get("VERIF_ONLY")
     if only:
         js = [j for j in js if only in repr(j)]
